@@ -261,6 +261,15 @@ class WorldImpl:
         k, side = op["op"], op.get("side")
         if k == "node" and op["nop"]["op"] == "tick":
             return f"wtick {side}"
+        if k == "browse":
+            o = self.installed(side, "web-browser")
+            if o is None:
+                return None
+            uid = op["url"] if op["url"] is not None else (URL_ID[o.config.target_url] if o.config.target_url else None)
+            if uid is None:
+                return f"browse {side} {self.impl[side].uid(o)} -"
+            text, host, port, path = URLS[uid]
+            return f"browse {side} {self.impl[side].uid(o)} {uid} {host} {'-' if port is None else port} {path}"
         if k in ("lookup", "ntpreq"):
             o = self.installed(side, "dns-client" if k == "lookup" else "ntp-client")
             if o is None:
@@ -354,11 +363,8 @@ class WorldImpl:
             else:
                 text, host, port, path = URLS[uid]
                 line = f"browse {side} {im.uid(o)} {uid} {host} {'-' if port is None else port} {path}"
-            try:
-                r = o.get_webpage(URLS[op["url"]][0]) if op["url"] is not None else o.get_webpage()
-            except AttributeError:
-                self.log.clear()
-                return [("raised", line)]   # no dns-client on the node: `dns_client.check_domain_exists` on None (as the code is)
+            # (an exception escaping get_webpage is an answer `raised:…` through WorldImpl.do: the model never raises here)
+            r = o.get_webpage(URLS[op["url"]][0]) if op["url"] is not None else o.get_webpage()
             return [(self.answer(f"ret {1 if r else 0}"), line)]
         if k == "inject":
             frame = self._frame(side, op["hdr"], op["port"], op["payload"])
